@@ -32,11 +32,12 @@ const (
 	opCanRemove
 	opEval
 	opNoop // Add of an already active set / health-like
+	opHealth
 )
 
 func (k opKind) String() string {
 	return [...]string{"Add", "Remove", "Set", "Toggle", "AddErr", "CanAdd",
-		"CanRemove", "Eval", "Noop"}[k]
+		"CanRemove", "Eval", "Noop", "Health"}[k]
 }
 
 type mwOp struct {
@@ -86,6 +87,9 @@ type mwCfg struct {
 	extraTracers             int
 	shuffleOrder             bool
 	bindKinds                bool // draw binding kinds (maps / prefix / struct)
+	health                   bool // add a Healthcheck state + health mutations
+	// vetoFilter restricts planned vetoes to the calls it accepts
+	vetoFilter func(w *mw, c *hCall) bool
 }
 
 type mwPlan struct {
@@ -226,6 +230,8 @@ func genOp(tp *core.Tape, c *mwCfg, names am.S, id string) mwOp {
 	op := mwOp{kind: k, id: id}
 	switch k {
 	case opAddErr, opEval:
+	case opHealth:
+		op.states = am.S{am.StateHealthcheck}
 	default:
 		op.states = genStates(tp, names, 3)
 	}
@@ -238,12 +244,18 @@ func genOp(tp *core.Tape, c *mwCfg, names am.S, id string) mwOp {
 func genPlan(tp *core.Tape, c *mwCfg) *mwPlan {
 	p := &mwPlan{hmut: map[int]mwOp{}, hyield: map[int]bool{}, hooks: map[string]bool{}}
 	p.schema, p.names = genSchema(tp, c)
+	if c.health {
+		p.schema[am.StateHealthcheck] = am.State{Multi: true}
+	}
 	p.order = slices.Clone(p.names)
 	if c.shuffleOrder {
 		for i := len(p.order) - 1; i > 0; i-- {
 			j := tp.Draw(i + 1)
 			p.order[i], p.order[j] = p.order[j], p.order[i]
 		}
+	}
+	if c.health {
+		p.order = append(p.order, am.StateHealthcheck)
 	}
 	p.order = append(p.order, am.StateException)
 	nt := tp.Range(c.minTasks, c.maxTasks)
@@ -594,6 +606,9 @@ func (w *mw) handle(b int, name string, e *am.Event, final bool) bool {
 	if k < len(w.p.hb) {
 		behav = w.p.hb[k]
 	}
+	if behav == hbVeto && w.c.vetoFilter != nil && !w.c.vetoFilter(w, c) {
+		behav = hbAccept
+	}
 	c.behav = behav
 	for _, f := range w.onHandler {
 		f(c, e)
@@ -678,6 +693,8 @@ func (w *mw) exec(task string, op mwOp, fromHandler bool) *opRec {
 		switch op.kind {
 		case opAdd, opNoop:
 			r.res = m.Add(op.states, args)
+		case opHealth:
+			r.res = m.Add1(am.StateHealthcheck, nil)
 		case opRemove:
 			r.res = m.Remove(op.states, args)
 		case opSet:
